@@ -18,7 +18,7 @@ HARNESSES = {
     "C01": [
         H("c01_strategies_info_accessors", "lib", "C01.K.StrategiesInfo", complete=True),
         H("playernum_ind", "lib", "K.playernum_ind", complete=True),
-        H("c01_get_info_recall_tree", "lib", "C01.K.get_info.recall_tree",
+        H("c01_get_info_recall_tree", "lib", "C01.K.get_info.recall_tree", tier="thorough", timeout=3600,
           bounded="ONE concrete 7-node perfect-recall tree; every profile with probabilities in {0, 1/2, 1}"),
     ],
     "C13": [
@@ -26,11 +26,15 @@ HARNESSES = {
           bounded="player one: infosets of 2 and 3 actions + one single-action infoset; entries any f64 in [0,1]"),
     ],
     "C14": [
-        H("c14_import_slow_accepts_iff", "lib", "C14.K.import_slow.accepts_iff",
-          bounded="one multi-action infoset (2 actions) + one single-action infoset; 2 entries x 2 (action, weight) pairs; names from a 6-value alphabet; weights any f64"),
+        H("c14_import_slow_two_entries", "lib", "C14.K.import_slow.accepts_iff",
+          bounded="one multi-action infoset (2 actions) + one single-action infoset; 2 entries x 1 (action, weight) pair; names from a 6-value alphabet; weights any f64"),
+        H("c14_import_slow_one_entry", "lib", "C14.K.import_slow.accepts_iff",
+          bounded="one multi-action infoset (2 actions); 1 entry x 2 (action, weight) pairs; names from a 6-value alphabet; weights any f64"),
     ],
     "C19": [
-        H("c19_distance_well_defined", "lib", "C19.K.distance.well_defined", bounded="one infoset of 2 actions / empty player; entries any f64 in [0,1]; p in {1, 2} (powf modelled exactly)"),
+        H("c19_distance_not_nan", "lib", "C19.K.distance.not_nan", bounded="one infoset of 2 actions / empty player; entries any f64 in [0,1]; p in {1, 2} (powf modelled exactly)"),
+        H("c19_distance_symmetric", "lib", "C19.K.distance.symmetric", bounded="as above"),
+        H("c19_distance_zero_iff_equal", "lib", "C19.K.distance.zero_iff_equal", bounded="as above"),
         H("c19_distance_range_upper", "lib", "C19.K.distance.range_upper", bounded="as above"),
         H("c19_distance_range_residual", "lib", "C19.K.distance.range_residual", bounded="as above"),
         H("c19_distance_panics_other_game", "lib", "C19.K.distance.panics", bounded="as above"),
@@ -40,26 +44,26 @@ HARNESSES = {
         H("c02_regret_bound_accessors", "lib", "C02.K.RegretBound.max", complete=True),
         H("c02_cum_regret_formula_n1", "data", "C02.K.cum_regret.formula", bounded=B3),
         H("c02_cum_regret_formula_n2", "data", "C02.K.cum_regret.formula", bounded=B3),
-        H("c02_cum_regret_formula_n3", "data", "C02.K.cum_regret.formula", bounded=B3),
+        H("c02_cum_regret_formula_n3", "data", "C02.K.cum_regret.formula", bounded=B3, tier="thorough", timeout=1800),
         H("c02_cum_regret_empty", "data", "C02.K.cum_regret.formula", bounded="empty slice; all iteration numbers"),
     ],
     "C05": [
         H("c05_avg_strat_distribution_n1", "data", "C05.K.avg_strat.distribution", bounded=B3),
         H("c05_avg_strat_distribution_n2", "data", "C05.K.avg_strat.distribution", bounded=B3),
-        H("c05_avg_strat_distribution_n3", "data", "C05.K.avg_strat.distribution", bounded=B3),
+        H("c05_avg_strat_distribution_n3", "data", "C05.K.avg_strat.distribution", bounded=B3, tier="thorough", timeout=1800),
         H("c05_regret_infoset_new", "data", "C05.K.RegretInfoset_new.uniform", bounded="1..3 actions"),
         H("c08_regret_match_positive_n1", "data", "C05.K.regret_match.distribution", bounded=B3),
         H("c08_regret_match_positive_n2", "data", "C05.K.regret_match.distribution", bounded=B3),
-        H("c08_regret_match_positive_n3", "data", "C05.K.regret_match.distribution", bounded=B3),
+        H("c08_regret_match_positive_n3", "data", "C05.K.regret_match.distribution", bounded=B3, tier="thorough", timeout=1800),
         H("c08_regret_match_fallbacks_n1", "data", "C05.K.regret_match.distribution", bounded=B3),
         H("c08_regret_match_fallbacks_n2", "data", "C05.K.regret_match.distribution", bounded=B3),
-        H("c08_regret_match_fallbacks_n3", "data", "C05.K.regret_match.distribution", bounded=B3),
+        H("c08_regret_match_fallbacks_n3", "data", "C05.K.regret_match.distribution", bounded=B3, tier="thorough", timeout=1800),
         H("c05_regret_match_softmax_n1", "data", "C05.K.regret_match.softmax", bounded=B3 + "; exp replaced by a sound interval model"),
         H("c05_regret_match_softmax_n2", "data", "C05.K.regret_match.softmax", bounded=B3 + "; exp replaced by a sound interval model"),
-        H("c05_regret_match_softmax_n3", "data", "C05.K.regret_match.softmax", bounded=B3 + "; exp replaced by a sound interval model"),
+        H("c05_regret_match_softmax_n3", "data", "C05.K.regret_match.softmax", bounded=B3 + "; exp replaced by a sound interval model", tier="thorough", timeout=1800),
         H("c02_cum_regret_formula_n1", "data", "C05.K.cum_regret.finite_nonneg", bounded=B3),
         H("c02_cum_regret_formula_n2", "data", "C05.K.cum_regret.finite_nonneg", bounded=B3),
-        H("c02_cum_regret_formula_n3", "data", "C05.K.cum_regret.finite_nonneg", bounded=B3),
+        H("c02_cum_regret_formula_n3", "data", "C05.K.cum_regret.finite_nonneg", bounded=B3, tier="thorough", timeout=1800),
     ],
     "C08": [
         H("c08_presets", "data", "C08.K.presets", complete=True),
@@ -68,16 +72,16 @@ HARNESSES = {
         H("c08_gen_discount_special", "data", "C08.K.gen_discount.special", complete=True),
         H("c08_regret_match_positive_n1", "data", "C08.K.regret_match.positive", bounded=B3),
         H("c08_regret_match_positive_n2", "data", "C08.K.regret_match.positive", bounded=B3),
-        H("c08_regret_match_positive_n3", "data", "C08.K.regret_match.positive", bounded=B3),
+        H("c08_regret_match_positive_n3", "data", "C08.K.regret_match.positive", bounded=B3, tier="thorough", timeout=1800),
         H("c08_regret_match_fallbacks_n1", "data", "C08.K.regret_match.fallbacks", bounded=B3),
         H("c08_regret_match_fallbacks_n2", "data", "C08.K.regret_match.fallbacks", bounded=B3),
-        H("c08_regret_match_fallbacks_n3", "data", "C08.K.regret_match.fallbacks", bounded=B3),
+        H("c08_regret_match_fallbacks_n3", "data", "C08.K.regret_match.fallbacks", bounded=B3, tier="thorough", timeout=1800),
         H("c08_discount_cum_regret_n1", "data", "C08.K.discount_cum_regret", bounded=B3),
         H("c08_discount_cum_regret_n2", "data", "C08.K.discount_cum_regret", bounded=B3),
-        H("c08_discount_cum_regret_n3", "data", "C08.K.discount_cum_regret", bounded=B3),
+        H("c08_discount_cum_regret_n3", "data", "C08.K.discount_cum_regret", bounded=B3, tier="thorough", timeout=1800),
         H("c08_discount_average_strat_n1", "data", "C08.K.discount_average_strat", bounded=B3),
         H("c08_discount_average_strat_n2", "data", "C08.K.discount_average_strat", bounded=B3),
-        H("c08_discount_average_strat_n3", "data", "C08.K.discount_average_strat", bounded=B3),
+        H("c08_discount_average_strat_n3", "data", "C08.K.discount_average_strat", bounded=B3, tier="thorough", timeout=1800),
     ],
     "C10": [
         H("c10_multinomial_inverse_cdf", "multinomial", "C10.K.multinomial.inverse_cdf",
